@@ -286,6 +286,24 @@ def run(ctx, res):
             res.violation(rid6, "skip-ws-table", "skip_ws decision table is %s, expected settings.skip_ws && !grammar.has_layout()" % sorted(rows, key=str), f2.loc())
         else:
             res.anchor_lost(rid6, "skip_ws computation not found in the parser template generator", f2.loc())
+    # R7: the tree handed out is the tree of THIS parse: TreeBuilder::get_result returns the node pushed last. A builder of a
+    # parser object that rejected an earlier input still holds that input's nodes below the top; any other element of the
+    # stack is a piece of another input - its leaves and layout do not spell this one (seed C14-10). Shares C02-R4.
+    from . import c02, report as _report
+    rid7 = res.rule("C14-R7", "the generic tree returned is the node pushed last by this parse (TreeBuilder::get_result = top of the "
+                    "result stack; shares C02-R4 tree-builder/result)", floor=1)
+    sub7 = _report.Result("C14", ctx.tier)
+    try:
+        c02.r4b_result(F, sub7, sub7.rule("C02-R4", "shared"))
+        for inst in sub7.instances:
+            if inst["ok"]:
+                res.ok(rid7, inst["instance"], inst.get("where"), inst.get("detail"))
+        for v in sub7.violations:
+            res.violation(rid7, v["key"].split("/", 1)[1], v["what"], v.get("where"))
+        for u in sub7.undecided_list:
+            res.undecided(rid7, u["what"], u.get("where"))
+    except Exception as e:      # noqa
+        res.undecided(rid7, "TreeBuilder::get_result not analysed: %s" % e)
     res.explanation = (
         "Decides every hand-off a byte of layout goes through in the LR parser: layout tried only when no token matches and "
         "in the layout state; stored before the retry; restored after the re-lex that follows a reduce; reset after a shift; "
